@@ -13,8 +13,13 @@
            update_supports — whatever the partition and order of the updating parallel_for;
      C03b  footprints of the support-update tasks: pairwise disjoint for every partition of (k, N); adequate for the
            model's task function (frame + read dependence); tasks commute; any partition in any order = the sequential loop.
+     C03_signed_tbb (end of file)  NO premise about the search: for every simple graph with positive integer weights, every
+           root order, pointer order, schedule bit stream and insertion order, the model of mcb_sva_signed_tbb returns SvaOk
+           with exactly m-n+c simple cycles forming a MINIMUM cycle basis, and the returned value is their total weight
+           (ParSignedProofs.v, on top of the optimality proof of the bidirectional search, BidirProofs*.v).
    What is NOT proved here: memory accesses of the compiled code (race clause: runtime evidence only, ThreadSanitizer on
-   the real TBB in the thorough tier), and the limit-monotonicity of the bidirectional search itself. *)
+   the real TBB in the thorough tier); the per-index limit-monotonicity premise of the two `_modulo_search` theorems (kept
+   as stated; C03_signed_tbb does not need it — it goes through the global-minimum form of the reduction argument). *)
 From Coq Require Import List Arith Bool Lia Permutation.
 From Parmcb Require Import GraphModel ForestModel GF2Model SvaModel SignedModel SchedModel ParSignedModel SchedProofs.
 Import ListNotations.
@@ -299,4 +304,51 @@ Example C03b_nonvacuous :
 Proof.
   cbv zeta. split; [|vm_compute; repeat split; reflexivity].
   cbn. apply (Permutation_cons_app [1; 2] []). apply Permutation_refl.
+Qed.
+
+
+(* ---- C03 for the signed variant, full strength at model level ----------------------------------------------------------
+   C03_signed_tbb   NO premise about the search.  For every simple graph with positive integer weights, every BFS root
+                    order, every pointer order of the edge descriptors, EVERY schedule bit stream (hence every schedule
+                    tree the stream yields for every parallel_for / parallel_reduce of the run, at every position) and every
+                    explicit insertion order of the concurrently pushed initial supports, the model of mcb_sva_signed_tbb
+                    answers SvaOk with a MINIMUM cycle basis (simple cycles, independent, spanning, minimum total weight
+                    among all cycle bases), exactly m - n + c cycles, and the returned value is their total weight.
+   The reductions are handled for ARBITRARY schedule trees (ParSignedProofs.ti_eval / ps_av_reduce / ps_he_reduce), the
+   single-signed-edge branch directly (ps_single); the per-search facts come from BidirProofs4.bidir_spec and
+   BidirProofsA1-A3.v; the loop from SvaProofs.v started at a permuted unit basis (perm_init_inv). *)
+From Coq Require Import ZArith.
+From Parmcb Require Import GraphSpec McbSpec SvaSpec SignedProofs2 ParSignedProofs.
+
+Theorem C03_signed_tbb :
+  forall (g : graph) (wts : list Z) (roots eord : list nat) (bits : list bool) (perm : list nat),
+    simple_graph g -> positive_weights g wts -> (forall v, v < nv g -> In v roots) ->
+    exists cycles total sup pos,
+      mcb_sva_signed_tbb_Z g wts roots eord bits perm = (SvaOk cycles total sup, pos)
+      /\ min_cycle_basis g wts cycles /\ total = total_weight wts cycles
+      /\ has_cycle_space_dimension g (length cycles).
+Proof. exact signed_tbb_min_basis. Qed.
+Print Assumptions C03_signed_tbb.
+
+(* one call of OddCycleFinder::find on a canonical witness, at every stream position: a minimum odd cycle with its weight *)
+Theorem C03_find_optimal :
+  forall (eord : nat -> nat) (bits : list bool) (g : graph) (wts : list Z) (roots : list nat) (fi : forest_index),
+    simple_graph g -> positive_weights g wts -> (forall v, v < nv g -> In v roots) -> create_index g roots = Some fi ->
+    forall (S : vec) (pos : nat), canonical_witness fi S ->
+    exists c w, fst (ParSignedModel.find Z 0%Z Z.add Z.ltb eord bits g wts fi S pos) = Some (Some (c, w))
+                /\ min_odd_cycle g wts (fun D => pairing fi S D = true) c /\ w = weight wts c.
+Proof. exact ps_find_opt. Qed.
+Print Assumptions C03_find_optimal.
+
+(* non-vacuity: K4 with unit weights under the all-ones stream (every range split, every split a Fork, right parts first:
+   5 splits = 15 bits) and the insertion order 2,0,1 of the three initial supports; weight 9 as the real code *)
+Example C03_signed_tbb_nonvacuous :
+  simple_graph sg_k4 /\ positive_weights sg_k4 sg_k4_wts /\ (forall v, v < nv sg_k4 -> In v sg_k4_roots) /\
+  forks (fst (sched_of_bits [true] 0 3)) = 2 /\
+  mcb_sva_signed_tbb_Z sg_k4 sg_k4_wts sg_k4_roots sg_k4_eord [true] [2; 0; 1]
+  = (SvaOk [[0;1;3];[0;2;4];[1;2;5]] 9%Z [[0];[0;2];[1;2]], 15) /\
+  total_weight sg_k4_wts [[0;1;3];[0;2;4];[1;2;5]] = 9%Z.
+Proof.
+  split; [exact sg_k4_simple|]. split; [exact sg_k4_positive|]. split; [exact sg_k4_roots_cover|].
+  split; [vm_compute; reflexivity|]. split; [vm_compute; reflexivity|reflexivity].
 Qed.
